@@ -108,6 +108,9 @@ func genOperators(c *core.Check, emit func(Program) bool) {
 		"(-a)**b", "-(a**b)", "(a**b)**c", "a**(b**c)", "(+a)**b", "(typeof a)**b", "(await_=a)", "a-(-b)", "a+(+b)", "a-(--b)", "a+(++b)", "(a--)-b", "(a++)+b", "a- -b", "a+ +b", "a<(!--b)", "(a--)>b", "a/(/b/.source)",
 		"(function(){return a})()", "(function(){return a}).call(b)", "(()=>{})()", "(()=>({}))()", "(a=>a)(b)", "((a,b)=>a)(b,c)", "(async()=>a)", "(a=b)=>a", "typeof (()=>a)", "(()=>a)?b:c", "(()=>a)||b",
 		"({}).p", "({p:a}).p", "({}+a)", "(class{}).name", "(class{static p=a}).p", "({a,b})", "({a}=({a:b}),a)", "([a,b]=[b,a],a)", "(a in b)", "(a instanceof b)",
+		// void of expressions with and without effects: nothing that calls, throws or assigns may vanish
+		"void (h1(1)+1)", "void (1+h1(2))", "void (h1(1),2)", "void (a in b)", "void (a instanceof b)", "void [h1(1)]", "void {p:h1(1)}", "void (a?h1(1):2)", "void `${h1(1)}`", "void h1`x`", "void -h1(1)", "void (h1(1)||2)", "void (a&&h1(1))", "void (a??h1(1))",
+		"void new h1", "void a.p", "void a[h1(1)]", "void typeof h1(1)", "void (h1(1)<h1(2))", "void (a=b)", "void (a+=1)", "void a++", "void (1+2)", "void (a+b)", "void !h1(1)", "void (h1(1)*h1(2)+h1(3))", "void (()=>h1(1))", "void (()=>h1(1))()", "void 0``", "void (a,b)",
 		"a?.p?.q", "a?.p?.[b]?.(c)", "a!=null?a.p:void 0", "a==null?void 0:a.p", "a!==null&&a!==void 0?a.p:void 0", "a&&a.p", "a&&a.p&&a.p.q"} {
 		if !emit(ret("[" + e + ",a,b,c]")) {
 			return
